@@ -49,8 +49,10 @@ def split_cond(c, pol):
 
 
 class Analysis:
-    def __init__(self, fn):
+    def __init__(self, fn, point_pred=None):
         self.fn = fn
+        self.point_pred = point_pred
+        self.points = []    # (node, conds) for nodes selected by point_pred (obligation sites)
         self.sites = []     # result sites (ret / tail), expanded through if/match/Ok/Err/Some
         self.tries = []     # `?` sites: node is the operand of `?`
         self.env = {}       # local id -> init expression (immutable simple `let`)
@@ -70,6 +72,8 @@ class Analysis:
     # -- expressions evaluated for effect (not the function result)
     def scan(self, e, conds):
         k = e.get("k")
+        if self.point_pred is not None and self.point_pred(e):
+            self.points.append((e, list(conds)))
         if k == "ret":
             if "e" in e:
                 self.value(e["e"], conds, [], "ret")
